@@ -43,10 +43,17 @@ def gen(rng, d, n):
         cl = sorted(cands)
         if len(cl) > n:
             cl = rng.sample(cl, n)
-        for c in cl:
-            if 0 in c or not c or len(c) > 30:
-                continue
+        ok = [c for c in cl if c and 0 not in c and len(c) <= 30]
+        for c in ok:
             lines.append('idx %d %s' % (r['fnum'], hx(c)))
+        # the same lookups on a field object that held (and was looked up with) ANOTHER value before: assigned from another field,
+        # or changed by set() - the answer must belong to the current value only
+        members = [c for c in ok if (c in [bytes.fromhex(v) for v in vals] if r['ty'] == 'string' else True)]
+        for k in range(min(len(ok), 12 if n <= 100 else 60)):
+            a, b = rng.choice(members or ok), rng.choice(ok)
+            if r['ty'] == 'bool':
+                continue
+            lines.append('asg %d %s %s %d' % (r['fnum'], hx(a), hx(b), (0, 2)[k % 2]))      # (mode 1, a copy(): copies carry no realm, their index is always absent)
     for _ in range(200):
         lo = rng.randrange(-50, 50); hi = lo + rng.randrange(0, 40)
         for v in (lo - 1, lo, lo + 1, hi - 1, hi, hi + 1, rng.randrange(lo - 5, hi + 6)):
@@ -58,6 +65,8 @@ def make_oracle(d):
     rm = {r['fnum']: r for r in d['realms']}
     def oracle(line, out):
         w = line.split()
+        if w[0] == 'asg':
+            w = ['idx', w[1], w[3]]          # judged as a fresh lookup of the value the field holds now
         if w[0] == 'idx':
             r = rm[int(w[1])]
             txt = bytes.fromhex(w[2])
@@ -111,7 +120,7 @@ def run(res, replay=None):
                         'std::lower_bound modelled by its bisection; descriptions are checked by the Python oracle against the dumped table',
                         'no range domain exists in the compiled schema: range lookups are exercised on a hand-made RealmBase in the harness']
     res.cov['rule'] = ('every enumerated field of the freshly compiled FIX42UTEST schema x candidate values (all chars 1..127 / ints around the domain / member strings and near misses), '
-                       'through the generated field factory; plus range realms with bounds and neighbours. distinct by line; all lines non-trivial (a lookup)')
+                       'through the generated field factory, and on field objects that held another value before (operator= from another field, set()); plus range realms with bounds and neighbours. distinct by line; all lines non-trivial (a lookup)')
     res.cov['realms'] = len(d['realms'])
     def compare(l, impl, model):
         return impl.split(' desc=')[0] == model
